@@ -93,12 +93,13 @@ type zvC04Case struct {
 
 // Path alphabet. Peer (source) addresses are pairwise distinct, so selection is
 // a strict total order and no two paths are attribute-equal.
-//   B   LOCAL_PREF 200                       -> better than everything
-//   E1  LOCAL_PREF 100 MED 0  source .2      -> ECMP-equal with E2, wins the tie (lower source)
-//   E2  LOCAL_PREF 100 MED 0  source .3
-//   W   LOCAL_PREF 100 MED 10 source .4      -> worse, not equal-cost
-//   S   static path                          (another protocol)
-//   S2  second static path (thorough tier only; static paths are always equal-cost)
+//
+//	B   LOCAL_PREF 200                       -> better than everything
+//	E1  LOCAL_PREF 100 MED 0  source .2      -> ECMP-equal with E2, wins the tie (lower source)
+//	E2  LOCAL_PREF 100 MED 0  source .3
+//	W   LOCAL_PREF 100 MED 10 source .4      -> worse, not equal-cost
+//	S   static path                          (another protocol)
+//	S2  second static path (thorough tier only; static paths are always equal-cost)
 var zvC04PathNames = []string{"B", "E1", "E2", "W", "S", "S2"}
 
 const zvC04Static = 4 // indices >= zvC04Static are static paths
@@ -343,6 +344,7 @@ type zvC04Env struct {
 	Reg     []bool // harness-side registered flag (what the harness asked for)
 	Mark    []int  // len(Calls) at the moment the client became unregistered
 	EverReg []bool
+	Via     []string // how the client became unregistered: unregister | dispose
 	// statistics of the last Apply (for coverage counters)
 	LastCalls [][]zvC04Call // calls each client received during the last Apply
 }
@@ -355,6 +357,7 @@ func zvC04NewEnv(universe string, opts []zvC04Opt) *zvC04Env {
 	e.Reg = make([]bool, len(opts))
 	e.Mark = make([]int, len(opts))
 	e.EverReg = make([]bool, len(opts))
+	e.Via = make([]string, len(opts))
 	e.LastCalls = make([][]zvC04Call, len(opts))
 	return e
 }
@@ -406,6 +409,7 @@ func (e *zvC04Env) Apply(o zvC04Op) {
 		e.Rib.Unregister(e.Clients[o.C])
 		if e.Reg[o.C] {
 			e.Reg[o.C] = false
+			e.Via[o.C] = "unregister"
 			e.Mark[o.C] = len(e.Clients[o.C].Calls)
 		}
 	case "refresh":
@@ -415,6 +419,7 @@ func (e *zvC04Env) Apply(o zvC04Op) {
 		for i := range e.Clients {
 			if e.Reg[i] {
 				e.Reg[i] = false
+				e.Via[i] = "dispose"
 				e.Mark[i] = len(e.Clients[i].Calls)
 			}
 		}
@@ -460,7 +465,7 @@ func zvC04Admitted(sel []string, ecmp uint, o zvC04Opt) []string {
 type zvC04Diff struct {
 	Clause string // accumulated | after_unregister
 	Client int
-	Kind   string // extra | missing | foreign_prefix | foreign_path | call
+	Kind   string // extra | missing | foreign_prefix | foreign_path | via_unregister | via_dispose
 	Text   string
 }
 
@@ -481,7 +486,7 @@ func (e *zvC04Env) Check() []zvC04Diff {
 	for ci, cl := range e.Clients {
 		if !e.Reg[ci] {
 			if len(cl.Calls) != e.Mark[ci] {
-				out = append(out, zvC04Diff{"after_unregister", ci, "call", fmt.Sprintf("client %d (%s) is not registered but received %v", ci, e.Opts[ci], cl.Calls[e.Mark[ci]:])})
+				out = append(out, zvC04Diff{"after_unregister", ci, "via_" + e.Via[ci], fmt.Sprintf("client %d (%s) is not registered any more but received %v", ci, e.Opts[ci], cl.Calls[e.Mark[ci]:])})
 			}
 			continue
 		}
